@@ -14,6 +14,8 @@ import multiprocessing as mp
 
 VERIF = os.path.dirname(os.path.dirname(os.path.abspath(__file__)))
 REPO = os.environ.get("VERIF_REPO", "/repo")
+# evidence and replay files describe /repo itself: a run against another tree (a scratch worktree with a seeded change) writes them elsewhere
+OUT = VERIF if os.path.realpath(REPO) == "/repo" else os.path.join("/tmp", "verif-scratch-out", os.path.basename(os.path.normpath(REPO)))
 sys.path.insert(0, VERIF)
 
 from symrun import core  # noqa: E402
@@ -259,7 +261,7 @@ def main(prop, modname, level="other", argv=None, extra_assumptions=(), trusted_
     confirmed = []
     known_hit = {}
     nonrepro = []
-    os.makedirs(os.path.join(VERIF, "replays"), exist_ok=True)
+    os.makedirs(os.path.join(OUT, "replays"), exist_ok=True)
     cands = []
     for (jn, label, inp) in raw_viol:
         job = jobmap[jn]
@@ -276,7 +278,7 @@ def main(prop, modname, level="other", argv=None, extra_assumptions=(), trusted_
     replies = {}
     if cands:
         import subprocess
-        bpath = os.path.join(VERIF, "replays", "%s-batch-%d.json" % (prop, os.getpid()))
+        bpath = os.path.join(OUT, "replays", "%s-batch-%d.json" % (prop, os.getpid()))
         with open(bpath, "w") as f:
             json.dump([(jn, label, inp) for (jn, label, inp, key) in cands], f)
         env = dict(os.environ, SYMRUN_PLAIN="1")
@@ -308,7 +310,7 @@ def main(prop, modname, level="other", argv=None, extra_assumptions=(), trusted_
             known_hit[key] = msg
             continue
         h = hashlib.sha1(json.dumps([jn, label, inp], sort_keys=True).encode()).hexdigest()[:10]
-        path = os.path.join(VERIF, "replays", "%s-%s.json" % (prop, h))
+        path = os.path.join(OUT, "replays", "%s-%s.json" % (prop, h))
         with open(path, "w") as f:
             json.dump(dict(property=prop, job=jn, label=label, key=key, inputs=inp, tier=tier, detail=msg), f, indent=1)
         confirmed.append((path, key, msg))
@@ -353,8 +355,8 @@ def main(prop, modname, level="other", argv=None, extra_assumptions=(), trusted_
     )
     ev = dict(property_id=prop, tier=tier, seed=seed, level=level, coverage=cov,
               assumptions=list(extra_assumptions), wall_s=round(wall, 2), violations=len(confirmed))
-    os.makedirs(os.path.join(VERIF, "evidence"), exist_ok=True)
-    with open(os.path.join(VERIF, "evidence", "%s.json" % prop), "w") as f:
+    os.makedirs(os.path.join(OUT, "evidence"), exist_ok=True)
+    with open(os.path.join(OUT, "evidence", "%s.json" % prop), "w") as f:
         json.dump(ev, f, indent=1, sort_keys=True)
     print("%s tier=%s jobs=%d paths=%d queries=%d obligations=%d/%d solver=%.1fs wall=%.1fs" % (
         prop, tier, len(jobs), total.paths, total.queries, total.discharged, total.obligations, total.solver_s, wall))
